@@ -60,6 +60,10 @@ func c13Schemas(thorough bool) []c13schema {
 		{"HR(S,N)", drv.TableCfg{Hash: "h", HashT: "S", Range: "r", RangeT: "N", Billing: "PAY_PER_REQUEST"}, ss("a", "a.1", "a.1.2", "a."), []val.V{val.N("1"), val.N("2"), val.N("1.2"), val.N("2.5"), val.N("12"), val.N("10.0"), val.N("20"), val.N("100"), val.N("0.5")}},
 		{"HR(B,S)", drv.TableCfg{Hash: "h", HashT: "B", Range: "r", RangeT: "S", Billing: "PAY_PER_REQUEST"}, []val.V{val.B(97), val.B(97, 46, 98), val.B(57), val.B(57, 55), val.B(0), val.B(97, 0), val.B(255), val.B(1, 2), val.B(18)}, ss("x", "98]", "]", "x.y")},
 		{"H(S)", drv.TableCfg{Hash: "h", HashT: "S", Billing: "PAY_PER_REQUEST"}, strs, nil},
+		// binary hash and range keys holding the byte of the separator (0x2E), of a blank, of brackets
+		{"HR(B,B)", drv.TableCfg{Hash: "h", HashT: "B", Range: "r", RangeT: "B", Billing: "PAY_PER_REQUEST"},
+			[]val.V{val.B(1), val.B(1, 46, 2), val.B(2, 46, 3), val.B(3), val.B(46), val.B(1, 46), val.B(46, 2), val.B(1, 32, 2), val.B(91, 49, 93)},
+			[]val.V{val.B(1), val.B(1, 46, 2), val.B(2, 46, 3), val.B(3), val.B(46), val.B(2), val.B(46, 3), val.B(2, 32, 3)}},
 	}
 	return out
 }
